@@ -40,6 +40,8 @@ func runTypeCheck(eng *Engine, name string) []*Obligation {
 		return guardedClosureObligations(eng, strings.TrimPrefix(name, "guarded:"))
 	case strings.HasPrefix(name, "callers:"):
 		return callerObligations(eng, strings.TrimPrefix(name, "callers:"))
+	case strings.HasPrefix(name, "implementors:"):
+		return implementorObligations(eng, strings.TrimPrefix(name, "implementors:"))
 	case strings.HasPrefix(name, "templates:"):
 		return templateObligations(eng, strings.TrimPrefix(name, "templates:"))
 	}
@@ -675,4 +677,63 @@ func iterCallObligations(eng *Engine, spec string) []*Obligation {
 		}
 	}
 	return []*Obligation{mkOb(name, "itercall", fmt.Sprintf("what %s is handed in a loop of %s is the result of %s called in that iteration", parts[1], parts[0], parts[3]), n > 0 && bad == "", fmt.Sprintf("%s (%d call sites in loops)", bad, n), props)}
+}
+
+// implementorObligations: "iface=type1,type2[@props]" — the contract of an interface method is what callers
+// assume at a dynamic call; it is established only for the listed implementations. Every conversion of a
+// concrete value to the interface (ssa.MakeInterface) in non-test sso code must be of a listed type, so a new
+// dynamic type (say a pointer where the code type-asserts the value type) cannot flow into the interface
+// without the contract being re-established for it.
+func implementorObligations(eng *Engine, spec string) []*Obligation {
+	var props []string
+	if j := strings.Index(spec, "@"); j >= 0 {
+		props = strings.Split(spec[j+1:], ",")
+		spec = spec[:j]
+	}
+	j := strings.Index(spec, "=")
+	if j < 0 {
+		return []*Obligation{mkOb("implementors["+spec+"]", "implementors", "implementors:<interface>=<types>", false, "malformed", props)}
+	}
+	iface, allowed := spec[:j], map[string]bool{}
+	for _, a := range strings.Split(spec[j+1:], ",") {
+		allowed[a] = true
+	}
+	var fns []*ssa.Function
+	for fn := range ssautil.AllFunctions(eng.prog) {
+		if strings.HasPrefix(fnPkgPath(fn), modPrefix) && fn.Blocks != nil {
+			fns = append(fns, fn)
+		}
+	}
+	sort.Slice(fns, func(i, j int) bool { return fns[i].String() < fns[j].String() })
+	n := 0
+	var bad []string
+	seen := map[string]bool{}
+	for _, fn := range fns {
+		for _, b := range fn.Blocks {
+			for _, in := range b.Instrs {
+				mi, ok := in.(*ssa.MakeInterface)
+				if !ok || mangleShort(mi.Type().String()) != iface {
+					continue
+				}
+				n++
+				t := mangleShort(mi.X.Type().String())
+				seen[t] = true
+				if !allowed[t] {
+					bad = append(bad, t+" (in "+shortFn(fn)+")")
+				}
+			}
+		}
+	}
+	sort.Strings(bad)
+	var missing []string
+	for a := range allowed {
+		if !seen[a] {
+			missing = append(missing, a)
+		}
+	}
+	sort.Strings(missing)
+	return []*Obligation{
+		mkOb("implementors["+iface+"]", "implementors", "every value converted to "+iface+" in the module has one of the types the interface contract is established for: "+spec[j+1:], len(bad) == 0, "other dynamic types: "+strings.Join(uniq(bad), ", "), props),
+		mkOb("implementors["+iface+"]/found", "implementors", "each listed implementation of "+iface+" is converted to it somewhere (vacuity guard)", n > 0 && len(missing) == 0, fmt.Sprintf("%d conversions; never converted: %s", n, strings.Join(missing, ", ")), props),
+	}
 }
